@@ -104,7 +104,8 @@ fn angle_pool(r: &mut Rng, it: u64) -> f64 {
         1 => *r.pick(&[0.0, PI / 2.0, -PI / 2.0, PI, -PI, 2.0 * PI, PI / 4.0, 1e-4, -1e-4, 3.0 * PI / 2.0]),
         2 => r.range(-1e6, 1e6),
         3 => PI * r.int_in(-4, 4) as f64 * 0.5 + r.range(-1e-3, 1e-3),
-        4 => r.range(-1e-3, 1e-3),
+        // small angles: uniform below 1e-3 and log-uniform down to 1e-12
+        4 => if r.bool() { r.range(-1e-3, 1e-3) } else { 10f64.powf(-r.range(1.0, 12.0)) * if r.bool() { 1.0 } else { -1.0 } },
         _ => r.range(-PI, PI),
     }
 }
@@ -181,7 +182,7 @@ macro_rules! ctor_suite {
                 let qs = <$Q>::from_scaled_axis(sv);
                 let svf = [sv.x as f64, sv.y as f64, sv.z as f64];
                 let sl = (svf[0] * svf[0] + svf[1] * svf[1] + svf[2] * svf[2]).sqrt();
-                if sl > 1e-3 {
+                if sl > 1e-15 {
                     let exs = exact_axis_angle(&svf, sl);
                     let (qm, qn) = quat_lin([qs.x as f64, qs.y as f64, qs.z as f64, qs.w as f64]);
                     k.mat("Quat::from_scaled_axis", &qm, &exs, 16.0 * eps, &|| format!("v={:?}", sv));
@@ -189,7 +190,9 @@ macro_rules! ctor_suite {
                     // to_scaled_axis / to_axis_angle rebuild the rotation
                     let back = <$Q>::from_scaled_axis(qs.to_scaled_axis());
                     let (bm, _) = quat_lin([back.x as f64, back.y as f64, back.z as f64, back.w as f64]);
-                    k.mat("to_scaled_axis rebuild", &bm, &qm, 32.0 * eps, &|| format!("q={:?}", qs));
+                    // same conditioning envelope as to_axis_angle below: eps / |vector part|
+                    let svq = ((qs.x as f64).powi(2) + (qs.y as f64).powi(2) + (qs.z as f64).powi(2)).sqrt();
+                    k.mat("to_scaled_axis rebuild", &bm, &qm, 8.0 * eps * (1.0 + 1.0 / svq.max(1e-300)), &|| format!("q={:?}", qs));
                 }
                 let (ax2, an2) = q.to_axis_angle();
                 let back = <$Q>::from_axis_angle(ax2, an2);
@@ -197,7 +200,7 @@ macro_rules! ctor_suite {
                 // conditioning: the angle comes from acos(w), so near angle 0 / 2 pi the rebuilt rotation may be off by
                 // eps / sin(angle/2) (the property's envelope); sin(angle/2) = |vector part|
                 let sv2 = ((q.x as f64).powi(2) + (q.y as f64).powi(2) + (q.z as f64).powi(2)).sqrt();
-                k.mat("to_axis_angle rebuild", &bm, &qm, 32.0 * eps * (1.0 + 1.0 / sv2.max(1e-300)), &|| format!("q={:?} -> axis {:?} angle {:?}", q, ax2, an2));
+                k.mat("to_axis_angle rebuild", &bm, &qm, 8.0 * eps * (1.0 + 1.0 / sv2.max(1e-300)), &|| format!("q={:?} -> axis {:?} angle {:?}", q, ax2, an2));
                 let al = ((ax2.x as f64).powi(2) + (ax2.y as f64).powi(2) + (ax2.z as f64).powi(2)).sqrt();
                 if !((al - 1.0).abs() <= 16.0 * eps) {
                     k.c.violation("accuracy", &["to_axis_angle axis unit"], format!("q={:?}", q), format!("{:?}", ax2), String::new(), String::new());
